@@ -1085,9 +1085,12 @@ def render_extract(ex, vac=False, strip_proof=False):
             if t_[2] == p0:
                 i0 = i_
                 break
-        if i0 is None or toks[i0][1] not in ('for', 'while', 'loop', 'if', 'let'):
-            raise Undecided('lift-stmt: literal does not start a for/while/loop/if/let statement')
+        if i0 is None:
+            raise Undecided('lift-stmt: literal does not start at a token')
         kw = toks[i0][1]
+        if kw not in ('for', 'while', 'loop', 'if'):
+            # `let` statement or expression statement: ends at the first `;` outside brackets
+            kw = 'let'
         j_ = i0 + 1
         end = None
         while kw == 'let' and j_ < len(toks):
